@@ -77,6 +77,12 @@ class C08(ProgramProperty):
         return None
 
     def known(self, case, f, ctx):
+        if 'C08-F1' in open_ids('C08') and f.signature == 'acceptance_differs':
+            from .c01 import top_level_colon
+            rejected = case['base'] if f.detail.get('base') != 'ok' else case['variant']
+            for m in re.finditer(r'(?:^|[\r\n])[ \t\x0c]*(match|case)\b', rejected.lstrip('\ufeff')):
+                if top_level_colon(rejected.lstrip('\ufeff')[m.start(1):]):
+                    return 'C08-F1'
         return None
 
 
